@@ -152,6 +152,29 @@ def run (ctx : Algo.Ctx) (op : String) (args impl : List String) : Outcome :=
     { model, spec,
       tags := ["sess", o "layout" "default"] ++ (if top.multi > 0 then ["multi"] else []) ++ (if top.cycle then ["cycle"] else []) ++
         (if parsed.length ≥ 5 ∧ ls.length ≥ 2 then ["nt"] else []) }
+  | "robust", [_seed, _tier, how] =>
+    -- hostile-conditions scenario (lib/procs_robust.py): the expected observation is a clean exit
+    let kv := impl.filterMap fun t => match t.splitOn "=" with | [k, v] => some (k, v) | _ => none
+    let g (k : String) : String := ((kv.find? (·.1 == k)).map (·.2)).getD "?"
+    let okExit : List String := if how == "accept" then ["0", "1"] else ["130"]
+    -- a scenario may end the session by itself before the exit request (a key byte that aborts or accepts)
+    let exitOk := okExit.contains (g "exit") || ["0", "1", "130"].contains (g "exit")
+    let problems : List String :=
+      (if g "err" != "0" then ["fzf panicked (stack trace on stderr)"] else []) ++
+      (if g "alive" != "1" then ["fzf stopped responding (liveness probe unanswered)"] else []) ++
+      (if g "exit" == "hung" then ["fzf did not exit after the exit request"] else
+       if g "exit" == "nostart" then (if g "err" != "0" then [] else []) else
+       if !exitOk then [s!"exit status {g "exit"}"] else []) ++
+      (if g "exit" != "hung" ∧ g "exit" != "nostart" then
+        (if g "stty" != "1" then ["terminal modes (termios) not restored"] else []) ++
+        (if g "alt" == "1" then ["alternate screen still on after exit"] else []) ++
+        (if g "mouse" == "1" then ["mouse reporting still enabled after exit"] else []) ++
+        (if g "tmp" != "0" ∧ g "tmp" != "-1" then [s!"{g "tmp"} temporary file(s) left in TMPDIR"] else []) ++
+        (if g "kids" != "0" ∧ g "kids" != "-1" then [s!"{g "kids"} child process(es) of the preview command still running"] else [])
+       else [])
+    { model := "clean", same := some problems.isEmpty,
+      spec := if problems.isEmpty then specOk else specFail ("[C14] " ++ "; ".intercalate problems),
+      tags := ["robust", how, "nt"] }
   | _, _ => { model := "bad-op" }
 
 end Driver.Term
